@@ -16,7 +16,7 @@ import numpy as np
 import tensorly as tl
 from tensorly.solvers import nnls as NN
 from tensorly.solvers import admm as AD
-from tensorly.decomposition import _nn_cp, _tucker, _parafac2, _constrained_cp, _cp
+from tensorly.decomposition import _nn_cp, _tucker, _parafac2, _constrained_cp
 from tensorly.tenalg import svd as SVDM
 
 PID = "C10"
@@ -53,8 +53,10 @@ ENCODED = [
     "tensorly.tucker_tensor.tucker_normalize",
 ]
 BOUNDS = {
-    "quick": "tensors 2x2 and 2x2x2 (PARAFAC2: 2 slices of 2x2), rank <= 2, n_iter_max in {0,1,2}, inner-solver units with <= 2 unknowns x 2 right-hand sides and 1-2 inner iterations",
-    "thorough": "as quick plus 3x2x2 / 2x2x2x2 tensors and n_iter_max = 3 for the multiplicative variants",
+    "quick": "tensors 2x2 and 2x2x2 (plus 1x2 / 2x1 for the multiplicative updates; PARAFAC2: 2 slices of 2x2, n_iter_parafac = 1), rank <= 2, n_iter_max in {0,1,2}; "
+    "svd initialisation of 2x2x2 tensors only with rank 1 (rank 2 = 512+ paths through svd_flip/NNDSVD: thorough tier); inner-solver units with <= 2 unknowns x 2 right-hand sides and 1-2 inner iterations; "
+    "NNDSVD on 2x2 matrices generated from their SVD (all reflection/sign variants, half-angle parameters in [1/8, 7/8])",
+    "thorough": "as quick plus 3x2x2 tensors, n_iter_max = 3 for the multiplicative variants, svd initialisation of 2x2x2 rank-2 tensors for n_iter_max <= 1, active-set unit with 2 unknowns and warm start",
 }
 OUTSIDE = [
     "iteration counts above the unrolled ones are covered by the inductive shape of the argument (each outer iteration re-establishes the sign invariant), not by unrolling",
@@ -68,13 +70,6 @@ ASSUMPTIONS = ["real arithmetic", "configs named .../nondegenerate/...: the Gram
 
 
 # ------------------------------------------------------------------------------------------------ configurations
-def _subsets(n):
-    out = []
-    for k in range(n + 1):
-        out += [list(c) for c in itertools.combinations(range(n), k)]
-    return out
-
-
 def configs(tier):
     q = tier == "quick"
     out = []
@@ -462,7 +457,7 @@ def h_u_svdnn(E, cfg):
     except ZeroDivisionError as e:
         E.prove("nndsvd_defined", False, detail=str(e))
         return
-    ok = prove_defined(E, "nndsvd_defined", [W, H])
+    prove_defined(E, "nndsvd_defined", [W, H])
     # the 'nndsvda' fill value is mean(M): non-negative only for a matrix with non-negative mean
     E.prove("W_nonneg_if_mean_nonneg", [E.Implies(E.ge(M[0, 0] + M[0, 1] + M[1, 0] + M[1, 1], 0), E.ge(x, 0)) for x in np.asarray(W).ravel()])
 
